@@ -716,7 +716,7 @@ fn scaled_err(err: f64, bound: f64) -> (i64, i64) {
     let k = 1.0e6 / bound;
     ((err.abs() * k).min(1.0e9) as i64, 1_000_000)
 }
-fn record(path: &str, seed: u64, n: usize, kinds: &[String]) {
+fn record(path: &str, seed: u64, n: usize, kinds: &[String], huge: bool) {
     use std::io::Write;
     let mut rng = Rng::new(seed);
     let mut f = std::io::BufWriter::new(std::fs::File::create(path).expect("create trace"));
@@ -727,16 +727,19 @@ fn record(path: &str, seed: u64, n: usize, kinds: &[String]) {
         let tick: i64 = *rng.pick(&[1i64, 1_000, 1_000_000, 1_000_000_000, 60_000_000_000]);
         let base: i64 = rng.range(-(1 << 40), 1 << 40) / tick * tick;
         let shift: i64 = rng.range(-(1 << 45), 1 << 45) / tick * tick;
-        let sk = rng.range(-3, 3) as i32;
-        let scale = 2f32.powi(sk);
         let filt = matches!(kind, "EWMA" | "EWMAQ" | "MA" | "MAQ");
+        let sk = if huge && !filt && h % 8 == 3 { 0 } else { rng.range(-3, 3) as i32 };      // (huge histories are not scaled: they would overflow)
+        let scale = 2f32.powi(sk);
         let e0 = rng.range(-4, 8) as i32;
         // a sample value: filters stay within two binades (so that "between min and max up to rounding" is a statement about a few ulps)
-        let val = |r: &mut Rng| -> f32 { if filt { ((1.0 + r.unit()) * 2f64.powi(e0 + (r.below(2) as i32))) as f32 } else { r.float(-6, 10) } };
+        // with `huge` (structure-only validation, C05) every eighth history of a non-filter kind uses magnitudes around 1e38, where a
+        // difference of two finite samples overflows: categories, error identities and twins must not depend on the values being tame
+        let big = huge && !filt && h % 8 == 3;
+        let val = |r: &mut Rng| -> f32 { if filt { ((1.0 + r.unit()) * 2f64.powi(e0 + (r.below(2) as i32))) as f32 } else if big { r.float(124, 127) } else { r.float(-6, 10) } };
         // windows from one tick (1 us .. 1 min) up to 24 hours; never more, so that window_ticks * tick cannot overflow i64
         let w_ticks: i64 = (match rng.below(4) { 0 => 1, 1 => rng.range(2, 50), 2 => rng.range(50, 1 << 16), _ => rng.range(1 << 16, 1 << 28) }).min(86_400_000_000_000 / tick);
         let unit = match kind { "AccToState" => json!([1, -2]), "VelToState" => json!([1, -1]), "PosToState" => json!([1, 0]), _ => json!([rng.range(-3, 3), rng.range(-3, 3)]) };
-        let cmd0 = (rng.below(3) as i64, rng.float(-4, 6));
+        let cmd0 = (rng.below(3) as i64, if big { rng.float(124, 127) } else { rng.float(-4, 6) });
         let gains: Vec<Value> = (0..3).map(|_| json!({"kp": rng.float(-3, 3), "ki": rng.float(-3, 3), "kd": rng.float(-3, 3)})).collect();
         let mkpar = |scl: f32| -> Value {
             json!({"sp": (cmd0.1 * scl) as f64, "kp": gains[0]["kp"], "ki": gains[0]["ki"], "kd": gains[0]["kd"],
@@ -764,7 +767,13 @@ fn record(path: &str, seed: u64, n: usize, kinds: &[String]) {
             let roll = rng.below(100);
             let is_cmdpid = kind == "CmdPID";
             let mut ev = if is_cmdpid && roll < 10 {
-                let (k, v) = match rng.below(3) { 0 => cur_cmd, 1 => (rng.below(3) as i64, cur_cmd.1), _ => (cur_cmd.0, rng.float(-4, 6)) };
+                // same command / other kind / other value / the NEIGHBOURING float of the current value (a different command all the same)
+                let (k, v) = match rng.below(4) {
+                    0 => cur_cmd,
+                    1 => (rng.below(3) as i64, cur_cmd.1),
+                    2 => (cur_cmd.0, rng.float(-4, 6)),
+                    _ => (cur_cmd.0, f32::from_bits(cur_cmd.1.to_bits() + 1)),
+                };
                 json!({"c": "set", "k": k, "v": v as f64, "key": f32_key(v), "e": 0, "t": 0})
             } else if roll < 72 {
                 let dt = if filt && rng.below(6) == 0 { 0 } else if tick == 1 { rng.range(1_000, 1 << 22) } else { match rng.below(3) { 0 => rng.range(1, 20), 1 => rng.range(20, 1 << 12), _ => rng.range(1 << 12, 1 << 20) } };
@@ -891,7 +900,7 @@ fn main() {
     let args: Vec<String> = std::env::args().collect();
     if args.len() >= 5 && args[1] == "record" {
         let kinds: Vec<String> = args.get(5).map(|k| k.split(',').map(|x| x.to_string()).collect()).unwrap_or_default();
-        record(&args[2], args[3].parse().unwrap_or(1), args[4].parse().unwrap_or(100), &kinds);
+        record(&args[2], args[3].parse().unwrap_or(1), args[4].parse().unwrap_or(100), &kinds, args.get(6).map(|x| x == "huge").unwrap_or(false));
         println!("SUMMARY {}", json!({"recorded": true}));
         return;
     }
